@@ -12,6 +12,7 @@ Inductive spell_equiv : ann -> ann -> Prop :=
     spell_equiv (AGeneric sp o args) (AGeneric sp' o args')
 | se_type : forall sp sp' args, spell_equiv (AGeneric sp TType args) (AGeneric sp' TType args)   (* Type[C] / type[C] *)
 | se_tuplevar : forall sp sp' e e', spell_equiv e e' -> spell_equiv (ATupleVar sp e) (ATupleVar sp' e')
+| se_tupleempty : forall sp sp', spell_equiv (ATupleEmpty sp) (ATupleEmpty sp')
 | se_union : forall sp sp' args mid args', spell_equiv_list args mid -> Permutation mid args' ->
     spell_equiv (AUnion sp args) (AUnion sp' args')
 with spell_equiv_list : list ann -> list ann -> Prop :=
@@ -98,6 +99,7 @@ Section Spell.
     - intros sp sp' o args args' Hne _ Hs v. now apply chk_generic_same.
     - intros sp sp' args v. reflexivity.
     - intros sp sp' e e' _ IH v. cbn [CheckerGood.chk]. destruct v; try reflexivity. apply forallb_ext. intros x. apply IH.
+    - intros sp sp' v. reflexivity.
     - intros sp sp' args mid args' _ Hs Hp v. cbn [CheckerGood.chk].
       rewrite (existsb_same _ _ v Hs). now apply existsb_perm.
     - constructor.
@@ -125,7 +127,7 @@ Section Spell.
     - cbn [CheckerGood.chk]. rewrite Forall_forall in IHargs. apply existsb_ext_in. intros m Hm. now apply IHargs.
     - cbn [CheckerGood.chk]. unfold py_in_scalar. apply existsb_ext_in. intros x _.
       destruct v, v'; try contradiction; destruct x; reflexivity.
-    - cbn [CheckerGood.chk]. destruct s; try reflexivity. unfold isinstance. now rewrite Hc.
+    - destruct s; exact (IHs v v' Hr).
     - cbn [CheckerGood.chk]. destruct (ctx n); [|reflexivity]. unfold isinstance. now rewrite Hc.
     - cbn [CheckerGood.chk]. destruct (ctx n); [|reflexivity]. unfold isinstance. now rewrite Hc.
     - (* generic *)
@@ -144,7 +146,7 @@ Section Spell.
       + destruct v, v'; try contradiction; reflexivity.
       + destruct args as [|a0 [|? ?]]; try reflexivity. destruct v, v'; try contradiction; reflexivity.
     - cbn [CheckerGood.chk]. destruct v, v'; try contradiction; reflexivity.
-    - reflexivity.
+    - cbn [CheckerGood.chk]. destruct v, v'; try contradiction; reflexivity.
     - reflexivity.
     - cbn [CheckerGood.chk]. destruct v, v'; try contradiction; reflexivity.
     - reflexivity.
